@@ -164,7 +164,16 @@ def mk_ite(c: Term, a: Term, b: Term) -> Term:
         return a
     if c == ("const", False):
         return b
+    # canonical polarity: the condition of a conditional value is never a negation (`b if not c else a`, `a if x is not None else b` and
+    # `b if x is None else a` are one term)
+    if c[0] == "not":
+        return mk_ite(c[1], b, a)
+    if c[0] == "cmp" and c[1] in _NEG_CMP:
+        return mk_ite(("cmp", _NEG_CMP[c[1]], c[2], c[3]), b, a)
     return ("ite", c, a, b)
+
+
+_NEG_CMP = {"!=": "==", "is not": "is", "not in": "in"}
 
 
 TAGS = frozenset(
